@@ -113,7 +113,7 @@ func (t *transport) classify(rule string) {
 			unprotHere, hasSite := false, false
 			t.c.explore(rule, fn, t.opts(), func(p *core.Path) {
 				for i := range p.Events {
-					if _, is := t.writeEvent(&p.Events[i]); is && p.Events[i].Depth == 0 {
+					if _, is := t.writeEvent(&p.Events[i]); is && own(&p.Events[i]) {
 						hasSite = true
 						if _, ok := muAcquire(p, t.mu, i); !ok {
 							unprotHere = true
@@ -199,7 +199,7 @@ func c09(c *Ctx) {
 		}
 		r.Check("C09.writers", name, "transport-write-helper", fn.Pos(), ok, why)
 	}
-	r.Floor("C09.writers", 3)
+	r.Floor("C09.writers", 2)
 
 	// --- per protected site: protocol, close-recorded
 	for _, fn := range c.P.FuncList {
@@ -254,7 +254,7 @@ func (t *transport) checkSection(fn *ssa.Function, protoRule, closeRule string) 
 		}
 		for i := range p.Events {
 			ev := &p.Events[i]
-			if _, is := t.writeEvent(ev); !is || ev.Depth != 0 {
+			if _, is := t.writeEvent(ev); !is || !own(ev) {
 				continue
 			}
 			nWritePaths++
